@@ -682,6 +682,11 @@ class Gen:
             return f
         self.nf += 1
         name = r.choice(["f", "g", "a", "z", "m", "_h", "_a"]) + str(self.nf)
+        special = [n for n in ("non_init", "non_compare", "origin_", "content", "id_", "skip_id") if n not in self.__dict__.setdefault("used_names", set())]
+        if special and r.random() < 0.06:
+            # names that resemble the accessors' own flags / the three special fields (each at most once per run)
+            name = special[0] if r.random() < 0.5 else r.choice(special)
+            self.used_names.add(name)
         if r.random() < 0.55:
             # (no bool properties while instances are type-checked at run time: the pinned tree rejects bool values
             # there, which is C13's business, not this property's)
